@@ -12,7 +12,7 @@ GenPRMDocs == {"good", "good_path", "res_other", "as_js", "no_as"}
 GenASM4xx == {"404"}
 GenASMHttpFail == {"500"}
 GenASMFlagDocs == {"good"}
-GenASMDocs == {"good", "iss_other", "iss_port", "no_pkce", "tok_http"}
+GenASMDocs == {"good", "iss_other", "iss_port", "no_pkce", "tok_http", "auth_jslo"}
 GenASMRest == {"404", "good"}
 GenRegConfigs == {"pre", "dcr", "cimd_pre"}
 GenPreRels == {"unset", "exact", "other", "port"}
@@ -29,4 +29,13 @@ CoverView == <<pc, ch, mcp, plist, idx, srv, asm, client, pre, ares, tokq, resul
 
 \* witness configuration (OAuthFlow_wit.cfg): discovery that goes on after a fatal outcome
 WitASMFatalStops == FALSE
+\* witness configuration (OAuthFlow_wit2.cfg): checkURLScheme only on the fields checkHTTPSOrLoopback does not look at
+Wit2ASMSchemeChecked == {"other"}
+Wit2Challenges == {"hdr_https"}
+Wit2McpURLs == {"https"}
+Wit2PRMOutcomes == {"good"}
+Wit2RegConfigs == {"dcr"}
+Wit2AuthStates == {"equal"}
+Wit2AuthIsses == {"absent"}
+Wit2TokenOutcomes == {"good"}
 =============================================================================
